@@ -99,12 +99,14 @@ def run_cases(chk, cases, prefix_cfgs):
     """cases: [(case, expected_keys|None)] -> events for Trace_C01"""
     events, meta = [], []
     srcs = [source(c) for c, _ in cases]
-    for prefix, cfgs in prefix_cfgs:
-        langs = common.LANGS if not prefix else ["swift", "kotlin"]
+    for tag, cfgs in prefix_cfgs:
+        prefix = "" if tag.startswith("@") else tag
+        langs = common.LANGS if not tag else ["go"] if tag == "@acronyms" else ["swift", "kotlin"]
         results = observe.generate(srcs, langs=langs, cfgs=cfgs)
         for (case, exp), per in zip(cases, results):
-            for lang in langs:
-                r = per[lang]
+            for lang0 in langs:
+                r = per[lang0]
+                lang = lang0 + ("+acronyms" if tag == "@acronyms" else "")
                 if r["status"] in ("panic", "abort"):
                     continue     # C07's business
                 if r["status"] == "unreadable":
@@ -113,13 +115,13 @@ def run_cases(chk, cases, prefix_cfgs):
                     continue     # C10's business (invalid output), not a key verdict
                 if r["status"] == "error":
                     raise ToolError(f"case {case} rejected by typeshare: {r['errors']}")
-                ms = members_of(lang, r["obs"], case, prefix if lang in ("swift", "kotlin") else "")
+                ms = members_of(lang0, r["obs"], case, prefix if lang0 in ("swift", "kotlin") else "")
                 if exp is not None:
                     judge_obs(chk, lang, case, ms, exp, prefix)
                 if ms and len(ms) == 2:
                     ident = case["ident"][2:] if case["ident"].startswith("r#") else case["ident"]
                     for m, (idt, ren) in zip(ms, ((ident, case["rename"]), ("plain_one", "none"))):
-                        events.append({"lang": lang, "ident": list(idt), "rename": [] if ren in ("none", None) else list(ren), "rule": case["rule"], "key": list(m["key"])})
+                        events.append({"lang": lang0, "ident": list(idt), "rename": [] if ren in ("none", None) else list(ren), "rule": case["rule"], "key": list(m["key"])})
                         meta.append((lang, case, prefix))
     return events, meta
 
@@ -140,7 +142,8 @@ def run(chk):
     if not cases:
         raise ToolError("no cases")
     chk.sample({"case": cases[len(cases) // 3][0], "required_keys": cases[len(cases) // 3][1], "source": source(cases[len(cases) // 3][0])})
-    prefix_cfgs = [("", None), ("Pre", {"swift": {"prefix": "Pre"}, "kotlin": {"prefix": "Pre", "package": "com.x"}})]
+    prefix_cfgs = [("", None), ("Pre", {"swift": {"prefix": "Pre"}, "kotlin": {"prefix": "Pre", "package": "com.x"}}),
+                   ("@acronyms", {"go": {"uppercase_acronyms": ["ID", "URL", "API"]}})]        # MC_C01!Configs
     run_cases(chk, cases, prefix_cfgs)
     chk.traces += len(cases)
 
@@ -184,6 +187,8 @@ def replay(chk, rec):
     c = rec["case"]
     silent = common.Check(chk.pid, chk.tier, chk.seed)
     pc = [(c.get("prefix", ""), {"swift": {"prefix": c.get("prefix", "")}, "kotlin": {"prefix": c.get("prefix", ""), "package": "com.x"}} if c.get("prefix") else None)]
+    if c["lang"].endswith("+acronyms"):
+        pc = [("@acronyms", {"go": {"uppercase_acronyms": ["ID", "URL", "API"]}})]
     events, meta = run_cases(silent, [(c["case"], None)], pc)
     keep = [(e, m) for e, m in zip(events, meta) if m[0] == c["lang"]]
     if not keep:
